@@ -6,6 +6,7 @@ import (
 	"strings"
 
 	"github.com/aundis/formula"
+	"github.com/ericlagergren/decimal"
 
 	"verifmon/internal/core"
 	"verifmon/internal/gen"
@@ -24,7 +25,7 @@ var c12 = core.Register(&core.Prop{
 	Shards: func(tier string) int { return pickTier(tier, 8, 16) },
 	Floors: func(c map[string]int64, tier string) []string {
 		var out []string
-		for _, k := range []string{"wellformed_checked", "malformed_checked", "malformed:separator", "malformed:exponent", "malformed:identifier", "with_separator", "over_34_digits", "embedded_malformed"} {
+		for _, k := range []string{"wellformed_checked", "malformed_checked", "malformed:separator", "malformed:exponent", "malformed:identifier", "with_separator", "over_34_digits", "embedded_malformed", "literal_sequences"} {
 			if c[k] == 0 {
 				out = append(out, "coverage floor: no "+k)
 			}
@@ -136,6 +137,59 @@ var c12Lit = core.Mon(c12, "literal-value", func(w *core.W, c *LitCase) {
 	}
 })
 
+// LitPairCase: two (or three) well-formed literals in one formula.
+type LitPairCase struct {
+	Lits []string `json:"lits"`
+	Sep  string   `json:"sep"`
+}
+
+var c12Pair = core.Mon(c12, "literal-sequence", func(w *core.W, c *LitPairCase) {
+	w.Eval(1)
+	var wants []ref.Dec
+	for _, l := range c.Lits {
+		if cl, _ := classifyLiteral(l); cl != 1 {
+			w.Skip("pair-with-non-literal")
+			return
+		}
+		d, ok := ref.ParseDec(l)
+		if !ok || d.Exp > 6000 || d.Exp < -6000 || d.Exp+d.Digits() > 6000 {
+			w.Skip("exponent-beyond-decimal128")
+			return
+		}
+		wants = append(wants, d)
+	}
+	src := "[" + strings.Join(c.Lits, c.Sep) + "]"
+	sc, err := formula.ParseSourceCode([]byte(src))
+	if err != nil {
+		w.Violation("literal-sequence", "C12/sequence-rejected", c, "parses", err.Error(), src)
+		return
+	}
+	v, rerr, panicked, pv := evalArray1("["+src+"]", nil)
+	_ = sc
+	w.Count("literal_sequences")
+	w.Nontrivial("seq:" + src)
+	if panicked || rerr != nil {
+		w.Violation("literal-sequence", "C12/sequence-error", c, "values", fmt.Sprint(pv, rerr), src)
+		return
+	}
+	outer, _ := v.([]interface{})
+	var arr []interface{}
+	if len(outer) == 1 {
+		arr, _ = outer[0].([]interface{})
+	}
+	if len(arr) != len(wants) {
+		w.Violation("literal-sequence", "C12/sequence-shape", c, len(wants), show(v), src)
+		return
+	}
+	for i, want := range wants {
+		d, ok := arr[i].(*decimal.Big)
+		if !ok || d == nil || !obs.DecOf(d).Finite() || !obs.DecOf(d).Equal(want) {
+			w.Violation("literal-sequence", "C12/sequence-value", c, want.String(), show(arr[i]), fmt.Sprintf("literal %d (%s) of %s", i, c.Lits[i], src))
+			return
+		}
+	}
+})
+
 var litAlphabet = []string{"0", "1", "9", ".", "e", "E", "+", "-", "_", "x"}
 
 var litEmbeds = []string{"[%s]", "f(%s)", "%s + 1", "1 + %s", "a ? %s : 1", "-%s", "(%s).k", "f(1, %s)", "a ? 1 : %s", "$v = %s", "typeof %s", "(%s)", "true ? %s : 0", "(0, %s)"}
@@ -238,6 +292,32 @@ func runC12(w *core.W) {
 		}
 	}
 	w.ExhaustivePart(fmt.Sprintf("all strings of 1..%d symbols over {0 1 9 . e E + - _ x}", kmax))
+	// sequences of literals of different shapes in one formula
+	rs := w.RNG("sequences")
+	shapes := []string{"1", "0", "12", "1_0", "1_000_000", "1.5", "1_0.2_5", ".5", ".5_0", "3.", "1e5", "1E-2", "1_0e1_0", "2.5e+3", "007", "0.0", "123456789012345678901234567890123456789", "1e0", "9_9.9_9e-9_9", "0.000000000000000000000000000000000001"}
+	pi := 0
+	for _, a := range shapes {
+		for _, b := range shapes {
+			for _, sep := range []string{", ", ",", " ,\n", ",\t"} {
+				pi++
+				if w.Mine(pi) {
+					c12Pair(w, &LitPairCase{Lits: []string{a, b}, Sep: sep})
+				}
+			}
+		}
+	}
+	for i, n := 0, w.Pick(20000, 200000); i < n; i++ {
+		k := 2 + rs.Intn(4)
+		c := &LitPairCase{Sep: []string{", ", ","}[rs.Intn(2)]}
+		for j := 0; j < k; j++ {
+			if rs.Intn(2) == 0 {
+				c.Lits = append(c.Lits, shapes[rs.Intn(len(shapes))])
+			} else {
+				c.Lits = append(c.Lits, randLiteral(rs))
+			}
+		}
+		c12Pair(w, c)
+	}
 	r := w.RNG("long")
 	for i, n := 0, w.Pick(80000, 900000); i < n; i++ {
 		s := randLiteral(r)
